@@ -52,6 +52,32 @@ def kfFlags (c : GenCfg) : List (String × GenCfg) :=
   (if c.nilRootPanics then [("nil-root-panics", { c with nilRootPanics := false })] else []) ++
   (if c.assignNilSrcPanics then [("assign-nil-src", { c with assignNilSrcPanics := false })] else [])
 
+def flagSetters : List (String × (GenCfg → Bool → GenCfg)) := [
+  ("container-fallthrough", fun c b => { c with fallThroughAlways := b }),
+  ("negative-index", fun c b => { c with negIndexPanics := b }),
+  ("nil-intercept", fun c b => { c with nilInterceptAnyDepth := b }),
+  ("elem-nil-cmp", fun c b => { c with elemNilCmpMissing := b }),
+  ("lc-root-zero", fun c b => { c with lcRootZero := b }),
+  ("lc-scalar-slice-zero", fun c b => { c with lcScalarSliceZero := b }),
+  ("lc-struct-stop-panics", fun c b => { c with lcStructStopPanics := b }),
+  ("lc-elem-stop-zero", fun c b => { c with lcElemStopZero := b }),
+  ("deq-ptr-leaf-nil", fun c b => { c with deqPtrLeafNilUnchecked := b }),
+  ("deq-nil-before-mustcheck", fun c b => { c with deqNilBeforeMustCheck := b }),
+  ("copy-root-slice-lost", fun c b => { c with copyRootSliceLost := b }),
+  ("copy-root-map-panics", fun c b => { c with copyRootMapPanics := b }),
+  ("copy-ptr-shared", fun c b => { c with copyPtrShared := b }),
+  ("copy-nil-elem-panics", fun c b => { c with copyNilElemPanics := b }),
+  ("copy-nil-dest-panics", fun c b => { c with copyNilDestPanics := b }),
+  ("reset-nil-ptr-panics", fun c b => { c with resetNilPtrPanics := b }),
+  ("copy-empty-ptr-coll-dropped", fun c b => { c with copyEmptyPtrCollDropped := b }),
+  ("assign-str-appends", fun c b => { c with strAppendsOld := b }),
+  ("set-lost-update", fun c b => { c with setLostUpdate := b }),
+  ("set-nil-map-store", fun c b => { c with setNilMapStorePanics := b }),
+  ("set-nil-leaf-ptr", fun c b => { c with setNilLeafPtrPanics := b }),
+  ("loop-root-map-skipped", fun c b => { c with loopRootMapSkipped := b }),
+  ("nil-root-panics", fun c b => { c with nilRootPanics := b }),
+  ("assign-nil-src", fun c b => { c with assignNilSrcPanics := b })]
+
 def allFixed (c : GenCfg) : GenCfg :=
   (kfFlags c).foldl (fun _acc _x => GenCfg.fixed) c
 
@@ -79,19 +105,31 @@ def classify {α : Type} [BEq α] (st : St) (model : GenCfg → α) (accepts0 : 
        | none => accepts0 o)
     else accepts0 o
   let m := model cfg
+  -- development aid: the fully repaired model must satisfy the property everywhere (it is what the theorems are about)
+  if st.mode == "fixedcheck" then
+    (let mf := model GenCfg.fixed
+     if nilRoot || accepts0 mf then "agree" else "model-viol FIXED-MODEL " ++ sh mf) else
+  -- which listed defects explain an outcome: under C02 only the panic / no-panic aspect counts
+  let same (x y : α) : Bool := if st.mode == "nopanic" then isPanic x == isPanic y else x == y
   if impl == m then
     if accepts m then "agree"
     else
-      let cls := (kfFlags cfg).filter (fun (_, c') => !(model c' == m))
+      let cls := (kfFlags cfg).filter (fun (_, c') => !(same (model c') m))
       if !cls.isEmpty then "known " ++ ",".intercalate (cls.map (·.1))
       else
         -- no single repair changes the outcome: look for a pair of listed defects that does
         let fl := kfFlags cfg
         let pairs := fl.flatMap fun (a, ca) => (kfFlags ca).filterMap fun (b, cab) =>
-          if a < b && !(model cab == m) then some (a ++ "+" ++ b) else none
+          if a < b && !(same (model cab) m) then some (a ++ "+" ++ b) else none
         if !pairs.isEmpty then "known " ++ ",".intercalate pairs
-        else if !(model (allFixed cfg) == m) then "known combination"
-      else "model-viol " ++ sh m
+        else if !(same (model (allFixed cfg)) m) then
+          -- several listed defects together: name those whose re-introduction alone changes the repaired outcome,
+          -- or, failing that, every defect still present
+          let mf := model GenCfg.fixed
+          let rel := flagSetters.filter fun (_, set) => !(same (model (set GenCfg.fixed true)) mf)
+          let names := if rel.isEmpty then (kfFlags cfg).map (·.1) else rel.map (·.1)
+          "known " ++ "+".intercalate names
+        else "model-viol " ++ sh m
   else
     if accepts impl then "dev-ok " ++ sh m
     else "dev-viol " ++ sh m
